@@ -131,7 +131,9 @@ def run(ctx, R):
         o2 = False
         for m, n in after:
             # assert_eq!(a, b, ..) expands to `match (&a, &b) { .. }`: look only at the compared operands, not the message
-            compared = next((x["scrut"] for x in walk(n) if x.get("k") == "match" and strip(x["scrut"]).get("k") == "tuple"), n)
+            compared = next((x["scrut"] for x in walk(n) if x.get("k") == "match" and strip(x["scrut"]).get("k") == "tuple"), None)
+            if compared is None:
+                continue          # an inner fragment of the expansion (the message), not the comparison itself
             lens = [x for x in walk(compared) if x.get("k") == "mcall" and x.get("name") == "len"]
             recvs = {strip(x["recv"]).get("bid") for x in lens}
             if m == "assert_eq" and final_bid in recvs and len(recvs) >= 2:
